@@ -81,6 +81,7 @@ class Explorer:
         self.pc = []
         self.free = []
         self.generic = []
+        self.kinds = []
         self.off_path = False
         self._policy = "fork"
         self._decided = {}
@@ -150,6 +151,7 @@ class Explorer:
         self.trace.append(d)
         self.pc.append(cond if d else z3.Not(cond))
         self.free.append(free)
+        self.kinds.append(self._policy)
         self._decided[cid] = d
         self.ctx.keep.append(cond)
         return d
@@ -182,13 +184,13 @@ class Explorer:
         """Explore all feasible paths of fn(); returns list of Path. Raises nothing on bounds:
         check `.bound_hit`."""
         results = []
-        stack = [([], None)]
+        stack = [([], None, False)]
         while stack:
             if self.runs >= self.max_paths:
                 self.bound_hit = True
                 break
-            prefix, forced = stack.pop()
-            self.prefix, self.trace, self.pc, self.free, self.generic = prefix, [], [], [], []
+            prefix, forced, sf_used = stack.pop()
+            self.prefix, self.trace, self.pc, self.free, self.generic, self.kinds = prefix, [], [], [], [], []
             self.off_path = False
             self._decided = {}
             self.ctx.reset_run(forced)
@@ -216,15 +218,19 @@ class Explorer:
                 if on_path is not None:
                     on_path(p)
             # schedule flips of the free decisions
-            pc, trace, free = list(self.pc), list(self.trace), list(self.free)
+            pc, trace, free, kinds = list(self.pc), list(self.trace), list(self.free), list(self.kinds)
             for i in range(len(trace) - 1, -1, -1):
                 if not free[i]:
+                    continue
+                if kinds[i] == "single-flip" and sf_used:
+                    # tolerance-style zero tests (|w| <= eps): every site is flipped on its own against the witness path, but not in
+                    # combination with other such sites (1 + k paths instead of 2^k)
                     continue
                 r, m = self._check(pc[:i] + [z3.Not(pc[i])])
                 if r == "unsat":
                     continue
                 forced_next = model_to_assign(self.ctx, m) if m is not None else {}
-                stack.append((trace[:i] + [not trace[i]], forced_next))
+                stack.append((trace[:i] + [not trace[i]], forced_next, sf_used or kinds[i] == "single-flip"))
         return results
 
 
